@@ -522,3 +522,16 @@ def run_c10(run, scratch, seed, tier):
 
 
 PROPS["C10"] = {"props_file": "C10.v", "run": run_c10}
+
+
+# ---------------------------------------------------------------- C11
+def run_c11(run, scratch, seed, tier):
+    st = suites.isolation_suite(run, scratch, seed, sizes(tier, 36, 400),
+                                hashseeds=(1, 4242) if tier == "quick" else (1, 4242, 31337))
+    run.add_suite("isolation_sessions", st)
+    run.cov["rule"] = st["rule"]
+    run.notes.append("hash seeds, processes and object aliasing are runtime behaviour the pure model cannot exhibit: the theorems say that the "
+                     "model's session is order-independent and run-once; the suite is what shows the implementation behaves like the model")
+
+
+PROPS["C11"] = {"props_file": "C11.v", "run": run_c11}
